@@ -16,17 +16,24 @@ apply_matrix_rect == min/max hull of the four mapped corners.
 Plane histories.  Operation sequences add / extend / remove / find / iterate / len /
 contains on Plane(bbox, gridsize) are executed next to a list model.
     may(o, q)   = o.x0 < q.x1 and q.x0 < o.x1 and o.y0 < q.y1 and q.y0 < o.y1   (proper overlap)
-    must(o,q,B) = o, q and the index bounds B have a common region of positive area
-find(q) must return every live object with must(), only live objects with may(), each
-once; everything else (objects meeting the query only outside the bounds or only on the
-bounds' edge, zero-area objects or queries) is "don't care".  Iteration must be the live
-objects in insertion order, len/in must agree with the model.
+    must(o,q,B) = may(o, q) holds inside the index bounds B: on each axis o, q and B share a
+                  stretch of positive length, or o is degenerate there (a rule or a point) and lies
+                  strictly inside q and strictly inside B, or q is degenerate and lies strictly
+                  inside o and strictly inside B
+"Properly overlaps" is the strict relation of Plane.find's own filter, which a zero-width
+object strictly inside a query satisfies (rules and zero-width rectangles are ordinary layout
+objects), so such objects are in the must-set, also when their coordinate is an exact
+multiple of the grid size.  find(q) must return every live object with must(), only live
+objects with may(), each once; the rest (objects meeting the query only outside the bounds
+or only on the bounds' edge) is "don't care".  Iteration must be the live objects in
+insertion order, len/in must agree with the model.
 
 Tagged sub-family 'readd' (never part of the main families): an object that was removed is
-added again.  It must then be live, found, counted and iterated exactly once; whether it is
-iterated at the place of its first or of its latest insertion is not decided by the
-property and is only counted.  A deviation that consists solely of re-added objects being
-iterated more than once carries the key `readd_iterated_twice`.
+added again.  It must then be live, found, counted and iterated exactly once, at the place of
+its latest insertion (adding it again is an insertion).  A deviation that consists solely of
+re-added objects being iterated more than once carries the key `readd_iterated_twice`, one
+that consists solely of re-added objects iterated once but elsewhere carries
+`readd_not_at_latest_position`.
 """
 from __future__ import annotations
 
@@ -56,7 +63,7 @@ RULE = (
     "a find after every mutation plus a full audit at the end. distinct = distinct histories, non-trivial = >=2 adds "
     "and (a remove or a find with a non-empty must-set). Only live objects are removed, only new objects are added "
     "(a double add and the removal of an absent object are undocumented and not generated). Re-adding a removed "
-    "object occurs only in the tagged sub-family 'readd' (its iteration position is don't-care, it must appear once)."
+    "object occurs only in the tagged sub-family 'readd' (it must be iterated once, at its latest insertion)."
 )
 LEVEL_TEXT = (
     "Bounded exploration: the laws are evaluated exactly on the generated tuples and the index is compared with a "
@@ -68,7 +75,9 @@ ASSUMPTIONS = [
     "mult_matrix(m1, m0) denotes the PDF row-vector product M1 x M0 (ISO 32000-1 8.3.4), the order in which `cm` concatenates onto the CTM",
     "translate_matrix's docstring ('origin at the specified point in its own coordinate system') means T(v) x M",
     "fractions.Fraction arithmetic and float comparison are exact; dyadic operands k/16 with |k|<=1024 keep every float product/sum exact",
-    "Plane promises nothing about the part of an object or query outside its bbox, nor about zero-area boxes (both are don't-care for the lower bound)",
+    "Plane promises nothing about the part of an object or query outside its bbox or on the bbox's edge (don't-care for the lower bound)",
+    "'properly overlap' is the strict-inequality relation of Plane.find's filter, under which a degenerate box strictly inside the other box overlaps it",
+    "adding a removed object again is an insertion: it is iterated at the end",
     "objects are immutable while indexed and compare/hash by identity (as LTComponent does)",
 ]
 SHARD_TIMEOUT = {"quick": 300, "thorough": 3600}
@@ -87,7 +96,7 @@ def minimums(tier: str) -> Dict[str, int]:
             "evaluations": 270000, "distinct": 150000,
             "matrix_cases": 5000, "law_evaluations": 150000, "seen:laws": len(LAWS), "seen:number_kinds": 4,
             "seen:matrix_styles": len(MATRIX_STYLES), "rect_degenerate": 600, "rect_reflected": 600, "matrix_singular": 1500,
-            "exh_pairs": 260000, "exh_must": 100000, "exh_dontcare": 25000, "seen:exh_origins": len(EXH_ORIGINS),
+            "exh_pairs": 260000, "exh_must": 120000, "exh_dontcare": 15000, "seen:exh_origins": len(EXH_ORIGINS),
             "hist_cases": 2000, "finds_checked": 60000, "find_must_objects": 120000, "find_dontcare_objects": 50000,
             "removes": 8000, "iter_checked": 5000, "len_checked": 30000, "contains_checked": 50000,
             "readd_histories": 250, "readds": 500,
@@ -98,7 +107,7 @@ def minimums(tier: str) -> Dict[str, int]:
         "evaluations": 1000000, "distinct": 700000,
         "matrix_cases": 200000, "law_evaluations": 6000000, "seen:laws": len(LAWS), "seen:number_kinds": 4,
         "seen:matrix_styles": len(MATRIX_STYLES), "rect_degenerate": 30000, "rect_reflected": 30000, "matrix_singular": 80000,
-        "exh_pairs": 800000, "exh_must": 400000, "exh_dontcare": 60000, "seen:exh_origins": len(EXH_ORIGINS),
+        "exh_pairs": 800000, "exh_must": 400000, "exh_dontcare": 25000, "seen:exh_origins": len(EXH_ORIGINS),
         "hist_cases": 80000, "finds_checked": 2500000, "find_must_objects": 5000000, "find_dontcare_objects": 2000000,
         "removes": 400000, "iter_checked": 200000, "len_checked": 1500000, "contains_checked": 2500000,
         "readd_histories": 8000, "readds": 16000,
@@ -471,9 +480,22 @@ def may(o: Box, q: Box) -> bool:
     return o[0] < q[2] and q[0] < o[2] and o[1] < q[3] and q[1] < o[3]
 
 
+def _must_axis(o0: float, o1: float, q0: float, q1: float, b0: float, b1: float) -> bool:
+    if max(o0, q0, b0) < min(o1, q1, b1):
+        return True     # a common stretch of positive length inside the bounds
+    if o0 == o1 and q0 < o0 < q1 and b0 < o0 < b1:
+        return True     # a rule/point strictly inside the query and strictly inside the bounds
+    if q0 == q1 and o0 < q0 < o1 and b0 < q0 < b1:
+        return True     # a degenerate query strictly inside the object and strictly inside the bounds
+    return False
+
+
 def must(o: Box, q: Box, b: Box) -> bool:
-    """o, q and the index bounds share a region of positive area (lower bound)."""
-    return max(o[0], q[0], b[0]) < min(o[2], q[2], b[2]) and max(o[1], q[1], b[1]) < min(o[3], q[3], b[3])
+    """Lower bound of find: o properly overlaps q (Plane.find's own strict relation) and does so
+    inside the index bounds.  On each axis that is either a common stretch of positive length of
+    o, q and the bounds, or a degenerate o (resp. q) lying strictly inside q (resp. o) and strictly
+    inside the bounds.  must() implies may()."""
+    return _must_axis(o[0], o[2], q[0], q[2], b[0], b[2]) and _must_axis(o[1], o[3], q[1], q[3], b[1], b[3])
 
 
 class _Plain:
@@ -611,13 +633,15 @@ def run_history(case: Dict[str, Any], stats: Optional[Dict[str, int]] = None) ->
                             "iteration %r yields re-added object(s) %r more than once; live (insertion order) %r, len()=%d"
                             % (ids, dup, order, len(order)))
             return fail("iter_duplicate", i, "iteration %r yields objects %r more than once; live %r" % (ids, dup, order))
-        # each live object once, order differs: the position of a re-added object is don't-care
+        # each live object once, order differs
         a = [v for v in ids if v not in readded]
         b = [v for v in order if v not in readded]
         if a != b:
             return fail("iter_order", i, "iteration %r is not the insertion order %r" % (ids, order))
-        cnt("readd_iterated_at_other_position")
-        return None
+        # only re-added objects are misplaced: adding an object again is its (latest) insertion
+        return fail("readd_not_at_latest_position", i,
+                    "iteration %r places re-added object(s) %r elsewhere than at their latest insertion; "
+                    "insertion order of the live objects is %r" % (ids, sorted(readded & live), order))
 
     def chk_len(i: int) -> Optional[List[Tuple[str, str]]]:
         try:
@@ -988,7 +1012,7 @@ def _hist_nontrivial(st: Dict[str, int]) -> bool:
 _COUNTED = (
     "adds", "extends", "removes", "readds", "finds_checked", "find_must_objects", "find_dontcare_objects",
     "finds_must_nonempty", "finds_empty", "dontcare_returned", "dontcare_not_returned", "iter_checked", "len_checked",
-    "contains_checked", "readd_iterated_at_latest_position", "readd_iterated_at_other_position",
+    "contains_checked", "readd_iterated_at_latest_position",
 )
 
 
